@@ -1,6 +1,6 @@
 """C01 — served state survives restart: snapshot plus log replay reproduces it exactly."""
 from ..runner import Prop, ModelRun
-from . import apply_gen
+from . import apply_gen, naming_gen
 
 
 class C01(Prop):
@@ -22,6 +22,14 @@ class C01(Prop):
         "applied and last log index) equals that of the node that never stopped, and the ids a sequence request hands out "
         "are the same on both. The Lean models of the namespace, sequence and table components predict node L's answers "
         "and snapshot records (correspondence). non-trivial = >=3 requests and a dump"))]
+    models.append(ModelRun("naming", naming_gen.gen_registry_restart, lambda c: any(o.startswith("reload") for o in c.ops),
+                           impl_env=naming_gen.IMPL_ENV, rule=(
+        "the real NamingActor: mixed histories of registrations (persistent and ephemeral; HTTP, gRPC, replicated; update "
+        "tags), removals and committed Raft removals; at arbitrary points the snapshot records are read (real "
+        "build_snapshot through the real snapshot writer and reader) and the actor is replaced by a fresh one that loads "
+        "them (real load_snapshot_record). The Lean model of the registry with buildSnapshot / loadSnapshot (round trip "
+        "proved: naming_component_roundtrip) must predict the records and every later answer and counter. "
+        "non-trivial = contains a reload")))
     trusted_base = [
         "the dispatch tables are re-extracted from raftdata.rs by /verif/translate/translate.py (purpose-built recogniser "
         "of the three match expressions; an unknown shape is an error); components are arbitrary in the theorems",
